@@ -4,7 +4,7 @@ import OpusProofs.SilkCoreHist
   `exc_Q14` has no influence (property C03, slice SilkCore).
 -/
 namespace Opus.SilkCoreProofs
-open Opus Opus.SilkParams Opus.SilkCore Opus.Gen
+open Opus Opus.SilkParams Opus.SilkCore Opus.Gen Opus.Frozen
 
 theorem decodeParameters_exc (s : DecState) (f : FrameIn) (e : List Int) :
     decodeParameters { s with excQ14 := e } f = decodeParameters s f := rfl
